@@ -116,9 +116,10 @@ fn o7_1_server_syn_reply() {
 }
 
 fn server_ack_gate(from_b: bool) {
-    let cfg = any_cfg();
+    // default configuration, SYN compatible by construction (see ack_gate_shape); the ACK's nonce is fully symbolic
+    let cfg = EndpointConfig::default();
     let mut s = mk_server(4, 4, cfg.clone());
-    let syn = any_syn(true, &cfg);
+    let syn = ok_syn();
     s.handle_frame(addr(A), frame::Frame::HandshakeSynFrame(syn.clone()), 1000);
     let server_nonce = unsafe { env::RANDOM_LAST };
     let ack_nonce: u32 = kani::any();
@@ -130,20 +131,21 @@ fn server_ack_gate(from_b: bool) {
     } else {
         assert!(ca == 0 && unsafe { oq::NEW_COUNT } == 0 && class_of(&s, A) == 1, "[C07] no Connect without the right nonce from the right address");
     }
-    if !from_b { kani::cover!(ca == 1, "handshake completed"); kani::cover!(ca == 0, "wrong nonce"); }
+    kani::cover!(from_b || ca == 1, "handshake completed");
+    kani::cover!(ca == 0, "no Connect");
     std::mem::forget(s);
 }
 
-//@h props=C07,C08 tier=thorough timeout=3000 group=heavy role=server-ack-gate args=--no-memory-safety-checks
+//@h props=C07,C08 tier=quick timeout=1200 role=server-ack-gate args=--no-memory-safety-checks
 //@fn Server::{handle_frame, handle_handshake_syn, handle_handshake_ack}
-//@bound compatible SYN (fields any) from A, then ACK with ANY nonce from A
+//@bound compatible SYN (default configuration, nonce any) from A, then ACK with ANY nonce from A
 //@assume VecMap; opaque connection model; socket model; nonce source any; crc stubbed; pointer checks off
 #[kani::proof]
 #[kani::unwind(6)]
 #[kani::stub(crate::frame::serial::crc::compute, crate::frame::serial::verif_codec::crc_stub)]
 fn o7_1_server_connect_requires_nonce() { server_ack_gate(false); }
 
-//@h props=C07,C08 tier=thorough timeout=3000 group=heavy role=server-ack-gate args=--no-memory-safety-checks
+//@h props=C07,C08 tier=quick timeout=1200 role=server-ack-gate args=--no-memory-safety-checks
 //@fn Server::{handle_frame, handle_handshake_syn, handle_handshake_ack}
 //@bound compatible SYN from A, then ACK with ANY nonce (the right one included) from another address B
 //@assume VecMap; opaque connection model; socket model; nonce source any; crc stubbed; pointer checks off
@@ -154,9 +156,11 @@ fn o7_1_server_ack_from_other_address() { server_ack_gate(true); }
 
 fn ack_gate_shape(server_nonce: u32, ack_nonce: u32, from_b: bool) {
     unsafe { env::RANDOM_FIXED = Some(server_nonce); }
-    let cfg = any_cfg();
+    // default configuration and a SYN that is compatible by construction (only its nonce is symbolic): whether the SYN is accepted
+    // decides a heap-modifying branch (DESIGN.md 10.8); every SYN field is symbolic in o7_1_server_syn_reply / o7_3
+    let cfg = EndpointConfig::default();
     let mut s = mk_server(4, 4, cfg.clone());
-    let syn = any_syn(true, &cfg);
+    let syn = ok_syn();
     s.handle_frame(addr(A), frame::Frame::HandshakeSynFrame(syn.clone()), 1000);
     s.handle_frame(addr(if from_b { B } else { A }), frame::Frame::HandshakeAckFrame(frame::HandshakeAckFrame { nonce_ack: ack_nonce }), 1500);
     let ca = count_events(&s, A).0;
@@ -172,7 +176,7 @@ fn ack_gate_shape(server_nonce: u32, ack_nonce: u32, from_b: bool) {
 
 //@h props=C07,C08 tier=quick timeout=1200 role=server-ack-gate-shapes args=--no-memory-safety-checks
 //@fn Server::{handle_frame, handle_handshake_syn, handle_handshake_ack}
-//@bound compatible SYN (fields any) from A; server nonce pinned to 0x80000001; ACK shapes: nonce off by one bit (0x80000000) from A -> no Connect
+//@bound compatible SYN (default configuration, nonce any) from A; server nonce pinned to 0x80000001; ACK shapes: nonce off by one bit (0x80000000) from A -> no Connect
 //@assume VecMap; opaque connection model; socket model; nonce source pinned; crc stubbed; pointer checks off
 #[kani::proof]
 #[kani::unwind(6)]
@@ -181,7 +185,7 @@ fn o7_1_server_ack_wrong_nonce_shape() { ack_gate_shape(0x8000_0001, 0x8000_0000
 
 //@h props=C07,C08 tier=quick timeout=1200 role=server-ack-gate-shapes args=--no-memory-safety-checks
 //@fn Server::{handle_frame, handle_handshake_syn, handle_handshake_ack}
-//@bound compatible SYN (fields any) from A; server nonce pinned; the RIGHT nonce arrives from another address B -> no Connect, nothing created for B
+//@bound compatible SYN (default configuration, nonce any) from A; server nonce pinned; the RIGHT nonce arrives from another address B -> no Connect, nothing created for B
 //@assume VecMap; opaque connection model; socket model; nonce source pinned; crc stubbed; pointer checks off
 #[kani::proof]
 #[kani::unwind(6)]
@@ -211,23 +215,26 @@ fn o7_3_server_negotiated_config() {
     std::mem::forget(s);
 }
 
-//@h props=C07,C08 tier=thorough timeout=3000 group=heavy role=server-no-reset args=--no-memory-safety-checks
+//@h props=C07,C08 tier=quick timeout=1200 role=server-no-reset args=--no-memory-safety-checks
 //@fn Server::{handle_frame, handle_handshake_syn, handle_handshake_ack}
-//@bound server with an ESTABLISHED connection for A (handshake run through the code); then a second SYN (fields any) or an ACK (nonce any) from A
+//@bound server with an ESTABLISHED connection for A (default configuration; handshake run through the code); then a second SYN (every field any) from A
 //@assume VecMap; opaque connection model; socket model; nonce source any; crc stubbed
 #[kani::proof]
 #[kani::unwind(6)]
 #[kani::stub(crate::frame::serial::crc::compute, crate::frame::serial::verif_codec::crc_stub)]
-fn o7_5_server_established_not_reset_by_handshake_frames() {
-    let cfg = any_cfg();
+fn o7_5_server_established_not_reset_by_second_syn() { established_not_reset(true) }
+// (an ACK with any nonce on an established connection: o8_2_server_active_frame_ack, from a constructed Active state - the
+// same script after a handshake run through the code needs 26 GB in CBMC, DESIGN.md 10.8)
+fn established_not_reset(second_is_syn: bool) {
+    let cfg = EndpointConfig::default();
     let mut s = mk_server(4, 4, cfg.clone());
-    let syn = any_syn(true, &cfg);
+    let syn = ok_syn();
     s.handle_frame(addr(A), frame::Frame::HandshakeSynFrame(syn), 0);
     let server_nonce = unsafe { env::RANDOM_LAST };
     s.handle_frame(addr(A), frame::Frame::HandshakeAckFrame(frame::HandshakeAckFrame { nonce_ack: server_nonce }), 0);
     assert!(class_of(&s, A) == 2 && count_events(&s, A).0 == 1);
     let sent0 = s.socket.sent_n();
-    if kani::any() {
+    if second_is_syn {
         s.handle_frame(addr(A), frame::Frame::HandshakeSynFrame(any_syn(false, &cfg)), 7);
     } else {
         s.handle_frame(addr(A), frame::Frame::HandshakeAckFrame(frame::HandshakeAckFrame { nonce_ack: kani::any() }), 7);
@@ -570,6 +577,7 @@ fn server_grammar_step_op(class: u8, op: u8, kind: u8) {
     let c1 = class_of(&s, A);
     let e = summarise(&s);
     assert!(e.other_addr == 0, "[C08] no event for an address that was not involved");
+    assert!(unsafe { oq::NEW_COUNT } == e.connect as u32, "[C07,C08] a connection object is created exactly when Connect is reported");
     // C10: what restarts the active timeout, and when it fires
     if let Some(d0) = deadline0 {
         let d1: Option<u64> = match rc.borrow().state { remote_client::State::Active(ref st) => Some(st.timeout_time_ms), _ => None };
@@ -704,7 +712,7 @@ sg!(o8_2_server_pending_drop, 1, 6, 0);
 //@bound server tracking address A in state Pending (nonces/limits any; its SYN-ACK resend timer entry: any time, any count <= 10); ONE operation: handle_events at any time with no timer entry due (the active-timeout scan)
 //@assume as o8_2_server_pending_frame_syn; the timer loop of handle_events (peek, break unless due, pop, handle_event) is modelled by the obligation calling handle_event on the due entry (see o18_1_pending_timer)
 sg!(o8_2_server_pending_timeout_scan, 1, 7, 0);
-//@h props=C08,C03,C09,C10,C07 tier=quick timeout=600 role=server-event-grammar args=--no-memory-safety-checks
+//@h props=C08,C03,C09,C10,C07 tier=quick timeout=600 role=server-event-grammar args=--no-memory-safety-checks also_quick=C07
 //@fn Server::{handle_frame and the handler of this frame type}
 //@bound server tracking address A in state Active (deadline any, disconnect signal any; the connection model answers anything and delivers 0..1 packets per receive()); ONE syn frame from A with every field any, at any time < 2^40
 //@assume as o8_2_server_pending_frame_syn
@@ -714,7 +722,7 @@ sg!(o8_2_server_active_frame_syn, 2, 0, 0);
 //@bound server tracking address A in state Active (deadline any, disconnect signal any; the connection model answers anything and delivers 0..1 packets per receive()); ONE syn_ack frame from A with every field any, at any time < 2^40
 //@assume as o8_2_server_pending_frame_syn
 sg!(o8_2_server_active_frame_syn_ack, 2, 0, 1);
-//@h props=C08,C03,C09,C10,C07 tier=quick timeout=600 role=server-event-grammar args=--no-memory-safety-checks
+//@h props=C08,C03,C09,C10,C07 tier=quick timeout=600 role=server-event-grammar args=--no-memory-safety-checks also_quick=C07
 //@fn Server::{handle_frame and the handler of this frame type}
 //@bound server tracking address A in state Active (deadline any, disconnect signal any; the connection model answers anything and delivers 0..1 packets per receive()); ONE ack frame from A with every field any, at any time < 2^40
 //@assume as o8_2_server_pending_frame_syn
@@ -779,7 +787,7 @@ sg!(o8_2_server_active_drop, 2, 6, 0);
 //@bound server tracking address A in state Active (deadline any, disconnect signal any; the connection model answers anything and delivers 0..1 packets per receive()); ONE operation: handle_events at any time with no timer entry due (the active-timeout scan)
 //@assume as o8_2_server_pending_frame_syn; the timer loop of handle_events (peek, break unless due, pop, handle_event) is modelled by the obligation calling handle_event on the due entry (see o18_1_pending_timer)
 sg!(o8_2_server_active_timeout_scan, 2, 7, 0);
-//@h props=C08,C03,C09,C10,C07 tier=quick timeout=600 role=server-event-grammar args=--no-memory-safety-checks
+//@h props=C08,C03,C09,C10,C07 tier=quick timeout=600 role=server-event-grammar args=--no-memory-safety-checks also_quick=C07
 //@fn Server::{handle_frame and the handler of this frame type}
 //@bound server tracking address A in state Closing (its Disconnect resend timer entry: any time, any count <= 10); ONE syn frame from A with every field any, at any time < 2^40
 //@assume as o8_2_server_pending_frame_syn
@@ -859,7 +867,7 @@ sg!(o8_2_server_closing_drop, 3, 6, 0);
 //@bound server tracking address A in state Closing (its Disconnect resend timer entry: any time, any count <= 10); ONE operation: handle_events at any time with no timer entry due (the active-timeout scan)
 //@assume as o8_2_server_pending_frame_syn; the timer loop of handle_events (peek, break unless due, pop, handle_event) is modelled by the obligation calling handle_event on the due entry (see o18_1_pending_timer)
 sg!(o8_2_server_closing_timeout_scan, 3, 7, 0);
-//@h props=C08,C03,C09,C10,C07 tier=quick timeout=600 role=server-event-grammar args=--no-memory-safety-checks
+//@h props=C08,C03,C09,C10,C07 tier=quick timeout=600 role=server-event-grammar args=--no-memory-safety-checks also_quick=C07
 //@fn Server::{handle_frame and the handler of this frame type}
 //@bound server tracking address A in state Closed (its forget timer entry: any time); ONE syn frame from A with every field any, at any time < 2^40
 //@assume as o8_2_server_pending_frame_syn
